@@ -152,17 +152,19 @@ def prefixMatch (idx : Index) (v : Value) : List Nat :=
 requested bounds; an open lower bound skips NULL.  The `BTreeMap::range` bounds computed with
 `smart_increment_value` / `try_increment_sqlvalue` only narrow the walk and never exclude a key
 that passes these checks (argued in notes/C02.md; exercised by the correspondence run). -/
+def multiCheck (first : Value) (lo hi : Option Value) (incLo incHi : Bool) : Bool :=
+  (match lo with
+    | none => !(first == .null)
+    | some l => if incLo then vcmp first l != .lt else vcmp first l == .gt) &&
+  (match hi with
+    | none => true
+    | some h => if incHi then vcmp first h != .gt else vcmp first h == .lt)
+
 def multiWalk (idx : Index) (lo hi : Option Value) (incLo incHi : Bool) : List Nat :=
   positions (idx.filter (fun kp =>
     match kp.1 with
     | [] => false
-    | first :: _ =>
-      (match lo with
-        | none => !(first == .null)
-        | some l => if incLo then vcmp first l != .lt else vcmp first l == .gt) &&
-      (match hi with
-        | none => true
-        | some h => if incHi then vcmp first h != .gt else vcmp first h == .lt)))
+    | first :: _ => multiCheck first lo hi incLo incHi))
 
 /-- start bound of the single-column path; an open lower bound with an upper bound starts after
 the NULL key (543a6998) -/
